@@ -1,12 +1,39 @@
+import os, sys
+sys.path.insert(0, os.path.dirname(os.path.dirname(os.path.abspath(__file__))))
+import checklib
+
+
+def regen(ctx):
+    return checklib.regen_skeletons(ctx, [
+        "kvstore/batch_writer.go:BatchedWriter.Enqueue", "kvstore/batch_writer.go:BatchedWriter.startBatchWriter",
+        "kvstore/batch_writer.go:BatchedWriter.StopBatchWriter", "kvstore/batch_writer.go:BatchedWriter.Flush",
+        "kvstore/batch_writer.go:BatchedWriter.runBatchWriter", "kvstore/batch_collector.go:BatchCollector.Add",
+        "kvstore/batch_collector.go:BatchCollector.Commit"],
+        extra_methods=["BatchWriteScheduled", "ResetBatchWriteScheduled", "BatchWrite", "BatchWriteDone", "Commit", "Cancel", "Batched"])
+
+
 SPEC = {
     "lean_props": "Hive.Props.C08",
+    "regen": regen,
     "lean_namespace": "Hive.BatchWriter",
     "driver": "drv_c08",
     "harness": "c08",
     "race": True,
-    "theorems": [],
-    "trusted_base": [],
-    "modelled": [],
+    "theorems": ["C08_written_before_done", "C08_done_once_per_scheduling", "C08_store_is_last_write",
+                 "C08_only_stop_can_fail", "C08_stop_waits_partial", "C08_ok_partial", "C08_stop_waits_state_partial",
+                 "C08_racing_enqueue_all_or_nothing_partial", "C08_window_counter",
+                 "C08_racing_enqueue_witness", "C08_stop_waits_witness", "C08_no_block_forever_witness",
+                 "C08_statement_witness", "C08_skeleton_Enqueue", "C08_skeleton_startBatchWriter",
+                 "C08_skeleton_StopBatchWriter", "C08_skeleton_Flush", "C08_skeleton_runBatchWriter",
+                 "C08_skeleton_collector_Add", "C08_skeleton_collector_Commit"],
+    "trusted_base": ["hand-written protocol model Hive/Model/BatchWriter.lean of kvstore/batch_writer.go + batch_collector.go, tied by (a) the trace predicate evaluated on traces of the real code, (b) the witness schedules replayed on the real code with trace equality, (c) regenerated synchronisation skeletons",
+                     "Go semantics of sync.Once / Mutex / WaitGroup / atomics / buffered channels / select as written in the model",
+                     "Go toolchain, compiled Lean driver, harness trace recorder (one mutex-ordered event log)"],
+    "modelled": ["Enqueue, startBatchWriter, StopBatchWriter, Flush, runBatchWriter, BatchCollector.Add/Commit as one atomic step per synchronisation-relevant operation",
+                 "the batch time-out timer may fire at any step (abstract time)",
+                 "store errors (Batched()/Commit() failing => writer panics), Int32 overflow of scheduledCount and batch size 0 are NOT modelled",
+                 "BatchWriteObject implementations are the harness's (flag test-and-set, version counter)"],
     "manifest": {"text": "", "note": "", "technique": ""},
-    "assumptions": [],
+    "assumptions": ["producer identifiers distinct; every thread starts outside a call (Init)",
+                    "_partial theorems: no producer between its running check and scheduledCount.Add(1) when Stop clears running (ghost flag raced = false)"],
 }
